@@ -5,6 +5,11 @@ Property theorems only (helper lemmas live in Proofs/Periodic.lean and Proofs/Pe
 `render`, `occurrences`, `denote`, `WF` are the C01 specification of Model/FormulaSpec.lean, the parser model is the one
 of C01, and `formula_mass_spec` rests on the C01 round-trip theorem `parse_render`).
 
+Positivity: `formula_mass_pos` / `mixture_fractions_spec` carry two hypotheses (`PositiveMass`): positive effective counts
+and charge ≤ 1000 × (number of atoms). Both are needed (`charge_bound_needed_witness`: H+2000 has mass −0.0898 u in the
+model and in the real code; `positive_counts_needed_witness`: [Fe]0 has mass 0), so the clause "mass fractions of any
+mixture are positive" of the property text holds only under them.
+
 THE REFERENCE TABLE (`refTable`, same rows as tools/harness/ref_iupac.json) — what it is and what it is not:
 * symbols and names: the IUPAC-approved symbols and (British-spelling: Aluminium, Caesium, Sulfur) names of Z = 1..118.
 * the 84 elements that HAVE an IUPAC standard atomic weight (Z = 1..83 except Tc 43 and Pm 61, plus Th 90, Pa 91, U 92):
@@ -200,11 +205,8 @@ theorem electron_mass_value : electronMass = 5489 / 10000000 := by
 
 /-! ### mass of a composition dict -/
 
-/-- `mass_from_composition` against an independent sum: it returns exactly when every key is 0..118, and then the
-    plain `List.sum` of the per-entry contributions `entryMass` (key 0: −amount·mₑ, key z: amount·weight z). -/
-theorem mass_spec (c : Comp) :
-    massFromComposition c = if ∀ p ∈ c, p.1 ≤ 118 then some (c.map entryMass).sum else none :=
-  massFromComposition_eq_entrySum c
+-- (the plain-sum form of the loop, `massFromComposition c = if ∀ keys ≤ 118 then some (c.map entryMass).sum else none`,
+--  is the lemma `massFromComposition_eq_entrySum` in Proofs/PeriodicFormula.lean: fold = sum, a restatement)
 
 /-- it refuses (IndexError) exactly when some key lies outside 0..118 -/
 theorem mass_defined_iff (c : Comp) :
@@ -235,11 +237,20 @@ theorem species_mass_spec (f : Formula) (h : f.WF) :
     speciesMass defaultPhases f.renderStr = .ok (occurrenceMass f) :=
   speciesMass_render f h
 
-/-- `Substance.from_formula(s).mass` returns at all exactly when the parser accepts `s` and every key is in the table -/
-theorem formula_mass_defined_iff (s : String) :
-    (∃ m, formulaMass s = .ok m) ↔
-      ∃ c, ChemModel.Formula.formulaToComposition s = .ok c ∧ ∀ p ∈ c, p.1 ≤ 118 :=
-  formulaMass_ok_iff s
+-- (when `formulaMass s` returns at all — parser accepts and keys in the table — is the lemma `formulaMass_ok_iff` in
+--  Proofs/PeriodicFormula.lean: it unfolds the model's `match`, the real content is C01's)
+
+/-- every standard weight in the table is positive (in fact ≥ 1 u: H = 1.008) -/
+theorem std_weight_pos (z : Nat) (h1 : 1 ≤ z) (h2 : z ≤ 118) : 0 < stdWeight z := stdWeight_pos z h1 h2
+
+/-- **The mass of a substance created from a formula is positive** — under two hypotheses that are both needed
+    (witnesses below): every element occurrence has a positive effective count (a written count `0`, as in `[Fe]0`,
+    gives mass 0), and the net charge is at most 1000 × the number of atoms (every weight is ≥ 1 u while 1000·mₑ < 1 u;
+    `H+2000` has mass −0.0898 in the model and in the real code). Any charge ≤ 0 satisfies the second hypothesis. -/
+theorem formula_mass_pos (f : Formula) (h : f.WF) (hcnt : ∀ p ∈ f.occurrences, 0 < p.2)
+    (hq : f.denote 0 ≤ 1000 * (f.occurrences.map fun p => p.2).sum) :
+    ∃ m, formulaMass f.renderStr = .ok m ∧ 0 < m :=
+  ⟨_, formulaMass_render f h, occurrenceMass_pos f h hcnt hq⟩
 
 /-- **Additive over hydrate parts**: `mass(A..nB) = mass(A) + n·mass(B)` on ASTs. `f` is any well-formed formula whose
     last part is `p` (leading count `p.mult`, 1 when omitted); `A` is `f` without that part (prefixes, charge, suffix kept)
@@ -300,6 +311,76 @@ theorem mass_fractions_spec (mv : List (Rat × Rat)) (fr : List Rat) (h : massFr
     (∀ i (hi : i < mv.length) (hj : i < fr.length), fr[i] * (mv.map fun p => p.1 * p.2).sum = mv[i].1 * mv[i].2) ∧
     ((∀ p ∈ mv, 0 < p.1 * p.2) → ∀ x ∈ fr, 0 < x) := massFractions_spec mv fr h
 
+/-- the positivity hypotheses of `formula_mass_pos`, as one predicate on a formula AST -/
+def PositiveMass (f : Formula) : Prop :=
+  f.WF ∧ (∀ p ∈ f.occurrences, 0 < p.2) ∧ f.denote 0 ≤ 1000 * (f.occurrences.map fun p => p.2).sum
+
+/-- **Mass fractions of a mixture of formulas.** For any list of (well-formed formula, positive coefficient) pairs whose
+    formulas satisfy the positivity hypotheses, the model of `mass_fractions({render fᵢ: vᵢ})` — every key through
+    `Substance.from_formula`, then the division loop — returns; every fraction is positive, equals
+    `massᵢ·vᵢ / Σ massⱼ·vⱼ` with `massᵢ` the occurrence mass of `fᵢ`, and for a non-empty mixture they sum to one. -/
+theorem mixture_fractions_spec (fs : List (Formula × Rat))
+    (h : ∀ x ∈ fs, PositiveMass x.1 ∧ 0 < x.2) :
+    ∃ fr, mixtureFractions (fs.map fun x => (x.1.renderStr, x.2)) = .ok (some fr) ∧
+      fr.length = fs.length ∧ (∀ y ∈ fr, 0 < y) ∧ (fs ≠ [] → fr.sum = 1) ∧
+      ∀ i (hi : i < fs.length) (hj : i < fr.length),
+        fr[i] = occurrenceMass fs[i].1 * fs[i].2 / (fs.map fun x => occurrenceMass x.1 * x.2).sum := by
+  have hmap := mapM_map_except_ok (fun x : Formula × Rat => (x.1.renderStr, x.2)) massPair
+    (fun x => (occurrenceMass x.1, x.2)) fs
+    (by intro x hx; simp only [massPair, formulaMass_render x.1 (h x hx).1.1])
+  have hpos : ∀ p ∈ fs.map (fun x : Formula × Rat => (occurrenceMass x.1, x.2)), 0 < p.1 * p.2 := by
+    intro p hp
+    obtain ⟨x, hx, rfl⟩ := List.mem_map.mp hp
+    obtain ⟨⟨hwf, hcnt, hq⟩, hv⟩ := h x hx
+    exact mul_pos (occurrenceMass_pos x.1 hwf hcnt hq) hv
+  obtain ⟨fr, hfr, hlen, hp, hsum, hprop⟩ := massFractions_of_pos _ hpos
+  refine ⟨fr, ?_, ?_, hp, ?_, ?_⟩
+  · unfold mixtureFractions
+    rw [hmap]
+    simp only [hfr]
+  · rw [hlen, List.length_map]
+  · intro hne
+    exact hsum (by intro e; exact hne (List.map_eq_nil_iff.mp e))
+  · intro i hi hj
+    have := hprop i (by rw [List.length_map]; exact hi) hj
+    rw [this, List.getElem_map, List.map_map]
+    rfl
+
+/-! ### group / period tables -/
+
+/-- **Group and period tables.** The members `periodic.groups` computes at import time for groups 1, 2, 13–18 are the
+    textbook lists (alkali metals incl. H, alkaline earths, B/C/N/O/F groups, noble gases), no other group number has
+    members, every member is an atomic number of the table, the period lengths are 2, 8, 8, 18, 18, 32, 32, they sum to
+    118 and the accumulated lengths are their running sums. -/
+theorem groups_reference :
+    groupMembers 1 = [1, 3, 11, 19, 37, 55, 87] ∧ groupMembers 2 = [4, 12, 20, 38, 56, 88] ∧
+    groupMembers 13 = [5, 13, 31, 49, 81, 113] ∧ groupMembers 14 = [6, 14, 32, 50, 82, 114] ∧
+    groupMembers 15 = [7, 15, 33, 51, 83, 115] ∧ groupMembers 16 = [8, 16, 34, 52, 84, 116] ∧
+    groupMembers 17 = [9, 17, 35, 53, 85, 117] ∧ groupMembers 18 = [2, 10, 18, 36, 54, 86, 118] ∧
+    (∀ g, g ∉ [1, 2, 13, 14, 15, 16, 17, 18] → groupMembers g = []) ∧
+    (∀ g z, z ∈ groupMembers g → 1 ≤ z ∧ z ≤ 118) ∧
+    periodLengths = [2, 8, 8, 18, 18, 32, 32] ∧ periodLengths.sum = 118 ∧
+    accumPeriodLengths = [2, 10, 18, 36, 54, 86, 118] := by
+  obtain ⟨h1, h2, h13, h14, h15, h16, h17, h18⟩ := groupMembers_reference
+  have hother : ∀ g, g ∉ [1, 2, 13, 14, 15, 16, 17, 18] → groupMembers g = [] := by
+    intro g hg
+    simp only [List.mem_cons, List.not_mem_nil, or_false, not_or] at hg
+    unfold groupMembers
+    rw [if_neg (by omega), if_neg hg.1, if_neg hg.2.1, if_neg (by omega)]
+  refine ⟨h1, h2, h13, h14, h15, h16, h17, h18, hother, ?_, by decide +kernel, by decide +kernel, by decide +kernel⟩
+  intro g z hz
+  by_cases hg : g ∈ [1, 2, 13, 14, 15, 16, 17, 18]
+  · have hall : ∀ g' ∈ [1, 2, 13, 14, 15, 16, 17, 18], ∀ z' ∈ groupMembers g', 1 ≤ z' ∧ z' ≤ 118 := by
+      decide +kernel
+    exact hall g hg z hz
+  · rw [hother g hg] at hz; cases hz
+
+/-- guard: the literal `"(aq)"` that `speciesMass` appends to the phases is the tuple `Species.from_formula` adds in the
+    source (`suffixes = tuple(phases) + ("(aq)",)`, regenerated into Gen), and the default phases are the generated ones -/
+theorem species_extra_suffix_guard :
+    speciesExtraSuffixes = [['(', 'a', 'q', ')']] ∧ speciesPhases.map String.toList = defaultPhases := by
+  decide +kernel
+
 /-! ### non-vacuity -/
 
 example : massFromComposition [(1, 2), (8, 1)] = some (18015 / 1000) := by decide +kernel
@@ -339,6 +420,46 @@ example : (bareFormula (.cons exGroup .nil)).WF ∧ (bareFormula (terms [el 7, e
     (bareFormula (.cons exGroup .nil)).renderStr = "(NH4)2" := by decide +kernel
 example : speciesMass defaultPhases "Hg(g)" = .ok (200592 / 1000) ∧ speciesMass defaultPhases "Cs(s)" = .ok (13290545196 / 100000000) ∧
     speciesMass defaultPhases "Na(aq)" = .ok (2298976928 / 100000000) := by decide +kernel
+/-- `SO4-2` -/
+def exSulfate : Formula :=
+  { prefixes := [], sep := .dots, parts := [⟨none, terms [el 16, el 8 (.int (d "4"))]⟩],
+    charge := some ⟨true, some (d "2")⟩, suffix := none }
+/-- `Fe+3` -/
+def exFe3 : Formula :=
+  { prefixes := [], sep := .dots, parts := [⟨none, terms [el 26]⟩], charge := some ⟨false, some (d "3")⟩, suffix := none }
+/-- `H+2000`: well-formed, but the charge exceeds 1000 × (number of atoms) -/
+def exH2000 : Formula :=
+  { prefixes := [], sep := .dots, parts := [⟨none, terms [el 1]⟩], charge := some ⟨false, some (d "2000")⟩, suffix := none }
+/-- `[Fe]0`: well-formed, but the only occurrence has effective count 0 -/
+def exFeZero : Formula :=
+  bareFormula (terms [.group .square (terms [el 26]) (.int (d "0")) none []])
+/-- `H2O` -/
+def exWater : Formula := bareFormula (terms [el 1 (.int (d "2")), el 8])
+
+-- the hypotheses of `formula_mass_pos` / `PositiveMass` are satisfiable (SO4-2, Fe+3, H2O) …
+example : exSulfate.renderStr = "SO4-2" ∧ PositiveMass exSulfate := by
+  refine ⟨by decide +kernel, by decide +kernel, by decide +kernel, by decide +kernel⟩
+example : exFe3.renderStr = "Fe+3" ∧ PositiveMass exFe3 ∧ formulaMass "Fe+3" = .ok (55845 / 1000 - 3 * electronMass) := by
+  refine ⟨by decide +kernel, ⟨by decide +kernel, by decide +kernel, by decide +kernel⟩, by decide +kernel⟩
+example : PositiveMass exWater ∧ PositiveMass exSoda := by
+  refine ⟨⟨by decide +kernel, by decide +kernel, by decide +kernel⟩, by decide +kernel, by decide +kernel, by decide +kernel⟩
+-- … and both are needed: the charge bound (`H+2000` is well-formed, all counts positive, and its mass is NEGATIVE,
+-- −0.0898 u, in the model exactly as in the real code) …
+theorem charge_bound_needed_witness :
+    exH2000.renderStr = "H+2000" ∧ exH2000.WF ∧ (∀ p ∈ exH2000.occurrences, 0 < p.2) ∧
+    formulaMass "H+2000" = .ok (-898 / 10000) ∧ ¬ (0 : Rat) < -898 / 10000 := by
+  refine ⟨by decide +kernel, by decide +kernel, by decide +kernel, by decide +kernel, by decide +kernel⟩
+-- … and the positive counts (`[Fe]0` is well-formed, neutral, and has mass 0)
+theorem positive_counts_needed_witness :
+    exFeZero.renderStr = "[Fe]0" ∧ exFeZero.WF ∧ exFeZero.denote 0 = 0 ∧ formulaMass "[Fe]0" = .ok 0 := by
+  refine ⟨by decide +kernel, by decide +kernel, by decide +kernel, by decide +kernel⟩
+-- a mixture of formulas: 2 H2O + 1 SO4-2
+example : mixtureFractions [("H2O", 2), ("SO4-2", 1)]
+    = .ok (some [18015 / 1000 * 2 / (18015 / 1000 * 2 + (96056 / 1000 + 2 * electronMass)),
+                 (96056 / 1000 + 2 * electronMass) / (18015 / 1000 * 2 + (96056 / 1000 + 2 * electronMass))]) := by
+  decide +kernel
+example : mixtureFractions [] = .ok (some []) ∧ mixtureFractions [("Hx", 1)] = .error (.parse .parse) := by decide +kernel
+example : groupMembers 17 = [9, 17, 35, 53, 85, 117] ∧ groupMembers 3 = [] := by decide +kernel
 example : formulaMass "Hx" = .error (.parse .parse) := by decide +kernel
 
 end ChemModel.C14
